@@ -29,6 +29,8 @@ type Harness struct {
 	MaxDecisions  int
 	MaxConcretize int
 	MapOrder      bool
+	Race          bool
+	RaceAll       bool
 	Stubs         map[string]*ssa.Function
 	StubNames     []string
 	Opaque        map[string]bool
@@ -283,6 +285,9 @@ func (e *Engine) applyDirective(h *Harness, d string) error {
 		h.QuoteApprox = len(fields) > 1 && fields[1] == "approx"
 	case "maporder":
 		h.MapOrder = true
+	case "race":
+		h.Race = true
+		h.RaceAll = len(fields) > 1 && fields[1] == "all"
 	case "sched":
 		h.Sched = true
 		if len(fields) > 1 {
